@@ -91,6 +91,32 @@ def h_tables(ctx):
     ctx.outcome("total=%d" % sum(tab))
     ctx.nontrivial(min(tab) == 0 or True)
 
+LARGE_TABLES = [(60000, 3000, 2000, 40000), (70000, 50000, 1, 0), (1, 49000, 47000, 3), (100000, 0, 0, 70000), (46341, 46341, 46341, 46341)]
+
+
+def h_large(ctx):
+    """tables whose counts exceed 2^16 (products of counts exceed 2^31), realised as obs/fcst arrays: the scores are exact-fraction
+    definitions evaluated on the counts, whatever integer width the implementation counts in"""
+    tab = ctx.choose("table", LARGE_TABLES, free=True)
+    form = ctx.choose("dtype", ("float64", "float32"), free=True)
+    a, b, c, d = tab
+    # event = value above 1.5: (fcst, obs) = (2,2) hit, (2,0) false alarm, (0,2) miss, (0,0) correct rejection
+    obs = np.concatenate([np.full(a, 2.0), np.full(b, 0.0), np.full(c, 2.0), np.full(d, 0.0)]).astype(form)
+    fcst = np.concatenate([np.full(a, 2.0), np.full(b, 2.0), np.full(c, 0.0), np.full(d, 0.0)]).astype(form)
+    iv = interval_for("above", 1.5, None)
+    ctx.note("table", list(tab))
+    for name in MC.METRICS:
+        m = get_metric(name)
+        exp = MC.score(name, *tab)
+        kind, got, site, _ = H.quiet_call(m.compute_from_obs_fcst, obs, fcst, iv)
+        if kind != "ok":
+            ctx.fail("large:%s:%s:%s" % (name, kind, site), table=list(tab))
+        elif not tol_equal(exp, got, allow_inf=True):
+            ctx.fail("large:%s:%s" % (name, "value" if exp is not None else "undefined-not-nan"), table=list(tab), expected=exp, actual=repr(got))
+    ctx.observe(tab)
+    ctx.outcome("total=%d" % sum(tab))
+    ctx.nontrivial()
+
 
 def counts(obs, fcst, bin_type, t, u):
     a = b = c = d = 0
@@ -242,7 +268,7 @@ def plan(tier):
     return [("tables", h_tables, {"tables": tables(8 if q else 20)}),
             ("vectors", h_vectors, {"maxlen": 2, "near": True} if q else {"maxlen": 3}),
             ] + ([] if q else [("vectors-near", h_vectors, {"maxlen": 2, "near": True})]) + [
-            ("cli", h_cli, {"tables": tables(4 if q else 7)})]
+            ("cli", h_cli, {"tables": tables(4 if q else 7)}), ("large", h_large, {})]
 
 
 def run(tier, only=None):
@@ -255,10 +281,11 @@ def run(tier, only=None):
         bound = {"tables": "all %d tables with 1 <= total <= %d x 4 number forms" % (len(params.get("tables", [])), max(sum(t) for t in params["tables"])) if "tables" in params else "",
                  "vectors": "all vector pairs of length <= %s over {0,1,1.5,2,3,NaN%s} x 8 bin types" % (params.get("maxlen"), ", 1+1e-7, 2-1e-7" if params.get("near") else ""),
                  "vectors-near": "all vector pairs of length <= %s over {0,1,1.5,2,3,NaN, 1+1e-7, 2-1e-7} x 8 bin types" % params.get("maxlen"),
+                 "large": "%d tables with counts beyond 2^16, as float64 and float32 arrays, 25 metrics" % len(LARGE_TABLES),
                  "cli": "all %d tables x 8 bin types x 25 metrics through the driver" % len(params.get("tables", []))}[name]
         subs.append(core.Sub.from_e1(name, st, bound=bound,
                                      rule="one execution = one table / vector pair / realised table; 25 metrics each; non-trivial = at least one pair",
-                                     required_flags={"tables": ("perfect",), "vectors": ("perfect", "swap", "complement"), "vectors-near": ("perfect", "swap", "complement"), "cli": ()}[name],
+                                     required_flags={"tables": ("perfect",), "vectors": ("perfect", "swap", "complement"), "vectors-near": ("perfect", "swap", "complement"), "cli": (), "large": ()}[name],
                                      wall=time.time() - t0))
     return subs
 
